@@ -6,6 +6,7 @@ import (
 	"os"
 	"path/filepath"
 	"regexp"
+	"sort"
 	"strings"
 
 	"github.com/paulsonkoly/calc/types/node"
@@ -370,10 +371,85 @@ func c16JudgeScript(bin string, idx []int) (sig, detail string, judged bool) {
 	return "", "", true
 }
 
+// ---------------------------------------------------------------- (c) inputs every mode must refuse the same way
+
+// c16Special: statements that cannot be executed — one too large for the instruction format, and inputs that end
+// inside an open array literal, block or string. Every mode must say so (the same first diagnostic line as -eval),
+// none may abort, and statements before and after are executed as usual.
+var c16Specials = map[string]string{
+	"oversized":        "write(1" + strings.Repeat("+1", 39999) + ")",
+	"open-array":       "v = [1,\n2",
+	"open-block":       "f = () -> {\n1",
+	"open-string":      "x = \"abc",
+	"open-nested":      "f = () -> {\n  [1,\n  2]",
+	"open-block-alone": "{",
+}
+
+func firstDiag(out string) string {
+	for _, l := range strings.Split(out, "\n") {
+		if strings.HasPrefix(l, "Parser:") || strings.HasPrefix(l, "Lexer:") || strings.HasPrefix(l, "Compile error:") {
+			return l
+		}
+	}
+	return ""
+}
+
+func c16JudgeSpecial(bin, name string) (sig, detail string) {
+	src := c16Specials[name]
+	evalOut, err := runCalc(bin, "", "-eval", src)
+	if err != nil {
+		return binarySig(err, "-eval"), fmt.Sprintf("%s input in -eval mode: %v", name, err)
+	}
+	aborted := func(out string) bool { return strings.Contains(out, "panic:") || strings.Contains(out, "fatal error:") }
+	if aborted(evalOut) {
+		return "binary-abort:-eval", fmt.Sprintf("%s input (%s) in -eval mode aborted: %s", name, clipStr(src, 60), clipStr(evalOut, 300))
+	}
+	want := firstDiag(evalOut)
+	if want == "" {
+		return "unexecutable-input-not-reported:-eval", fmt.Sprintf("%s input (%s) in -eval mode prints %q: no diagnostic", name, clipStr(src, 60), clipStr(evalOut, 200))
+	}
+	before, after := "write(\"before\\n\")", "write(\"after\\n\")"
+	for _, mode := range []string{"file", "file-no-final-newline", "repl"} {
+		script := before + "\n" + src
+		if name == "oversized" {
+			script += "\n" + after // an unfinished input swallows what follows; a refused statement does not
+		}
+		var out string
+		switch mode {
+		case "repl":
+			out, err = runCalc(bin, script+"\n")
+		default:
+			content := script
+			if mode == "file" {
+				content += "\n"
+			}
+			fn := filepath.Join(c16ScratchDir(), fmt.Sprintf("special-%d.calc", os.Getpid()))
+			if werr := os.WriteFile(fn, []byte(content), 0o644); werr != nil {
+				return "harness:scratch-file", werr.Error()
+			}
+			out, err = runCalc(bin, "", fn)
+		}
+		if err != nil {
+			return binarySig(err, mode), fmt.Sprintf("%s input in %s mode: %v", name, mode, err)
+		}
+		if aborted(out) {
+			return "binary-abort:" + mode, fmt.Sprintf("%s input (%s) in %s mode aborted: %s", name, clipStr(src, 60), mode, clipStr(out, 300))
+		}
+		if !strings.Contains(out, "before\n") || (name == "oversized" && !strings.Contains(out, "after\n")) {
+			return "mode-differs:" + mode, fmt.Sprintf("%s input (%s) in %s mode: the statements around it did not run: %q", name, clipStr(src, 60), mode, clipStr(out, 300))
+		}
+		if got := firstDiag(out); got != want {
+			return "unexecutable-input-not-reported:" + mode, fmt.Sprintf("%s input (%s): -eval reports %q, %s mode reports %q (output %q)", name, clipStr(src, 60), want, mode, got, clipStr(out, 200))
+		}
+	}
+	return "", ""
+}
+
 type c16Item struct {
-	Kind string `json:"kind"` // lines | script
+	Kind string `json:"kind"` // lines | script | special
 	Mode string `json:"mode,omitempty"`
-	Seq  []int  `json:"seq"`
+	Seq  []int  `json:"seq,omitempty"`
+	Name string `json:"name,omitempty"`
 }
 
 func init() {
@@ -381,8 +457,8 @@ func init() {
 		ID:    "C16",
 		Level: "model_checking",
 		Rule: "(a) explicit-state search over all sequences of length <= 4 (quick) / 5 (thorough) of 21 script lines (one-line statements, block openers / closers / else, an array literal and a string split over lines, strings containing { [ } ; an escaped quote and a backslash, comments containing { \" [, blank lines) fed to the real read-eval loop through the real file reader (with and without final newline) and through an in-memory line reader (REPL style) with a recording parser: the inputs handed to the parser must be, token for token, the statements a lexer-aware splitter finds; " +
-			"(b) every script of <= 2 (quick) / 3 (thorough) statements from a 43-statement alphabet (expressions of every value kind, function definitions and calls, multi-line blocks, loops, strings with every special character, a multi-line string, comments, a multi-line array literal, a runtime error, dependent statements) through the built cmd/calc binary in -eval, piped-REPL and file mode (with and without final newline): each mode's output must be what in-process statement-by-statement execution predicts. states = distinct (nesting depth, open string, pending text) accumulator states of the model; transitions = lines fed",
-		Assumptions:     []string{"ill-formed line sequences (a closer without opener, an unfinished block at end of file) are skipped and counted", "runtime error reports are compared on their first line only (addresses and instruction numbers differ between modes)"},
+			"(b) every script of <= 2 (quick) / 3 (thorough) statements from a 43-statement alphabet (expressions of every value kind, function definitions and calls, multi-line blocks, loops, strings with every special character, a multi-line string, comments, a multi-line array literal, a runtime error, dependent statements) through the built cmd/calc binary in -eval, piped-REPL and file mode (with and without final newline): each mode's output must be what in-process statement-by-statement execution predicts; (c) inputs that cannot be executed (a statement too large for the instruction format; inputs that end inside an open array literal, block, nested literal or string) in all four modes: no mode aborts, every mode prints the diagnostic -eval prints, the statements around them run. states = distinct (nesting depth, open string, pending text) accumulator states of the model; transitions = lines fed",
+		Assumptions:     []string{"ill-formed line sequences (a closer without opener, an unfinished block at end of file) are skipped and counted in family (a); family (c) judges the unfinished ones on the built binary", "runtime error reports are compared on their first line only (addresses and instruction numbers differ between modes)"},
 		NeedsCalcBinary: true,
 		Exec: func(payload string) (string, string) {
 			impl.Init()
@@ -393,6 +469,9 @@ func init() {
 			if it.Kind == "lines" {
 				s, d, _ := c16JudgeLines(it.Seq, it.Mode)
 				return s, d
+			}
+			if it.Kind == "special" {
+				return c16JudgeSpecial(ensureCalcBinary(), it.Name)
 			}
 			s, d, _ := c16JudgeScript(ensureCalcBinary(), it.Seq)
 			return s, d
@@ -468,4 +547,21 @@ func c16Run(w *core.W) {
 		}
 		return !w.Expired("time budget reached in the binary family")
 	})
+	w.Family("unexecutable-inputs-binary")
+	names := []string{}
+	for n := range c16Specials {
+		names = append(names, n)
+	}
+	sort.Strings(names)
+	for _, n := range names {
+		b, _ := json.Marshal(c16Item{Kind: "special", Name: n})
+		if !w.Mine(string(b)) {
+			continue
+		}
+		w.NonTrivial()
+		w.Evals(4)
+		if sig, detail := c16JudgeSpecial(w.CalcBinary, n); sig != "" {
+			w.Fail(string(b), sig, detail)
+		}
+	}
 }
